@@ -873,6 +873,23 @@ bool minSweep(long idx, Batch& b, Rng& r)
     return false;
 }
 
+// top of the legal ranges: max in [65536, 65559] x payload length in [65500, 65535] (16-bit size arithmetic wraps here),
+// alone and after a small packet of the same type
+constexpr long kTopSweep = 24 * 36 * 2;
+bool topSweep(long idx, Batch& b, Rng& r)
+{
+    long i = idx / 2;
+    size_t max = 65536 + static_cast<size_t>(i / 36);
+    size_t len = 65500 + static_cast<size_t>(i % 36);
+    b.cfg.max = max;
+    b.cfg.min = (idx % 7 == 0) ? max : 0;
+    if (idx % 2)
+        b.pkts.push_back(genPkt(r, K_GEN_DATA, 1 + static_cast<size_t>(idx % 13), 1));
+    b.pkts.push_back(genPkt(r, (idx % 3) ? K_GEN_DATA : K_ETH, len, 1));
+    b.overload = static_cast<int>(idx % 3);
+    return true;
+}
+
 // one batch per payload kind x {aggregated, segmented}, mixed type patterns, the 65535-byte payloads
 constexpr long kKindCases = K_COUNT * 2 + 8;
 void kindCase(long idx, Batch& b, Rng& r)
@@ -942,11 +959,11 @@ void kindCase(long idx, Batch& b, Rng& r)
 
 struct Plan
 {
-    long sweep1 = 0, sweep2 = 0, minSweep = 0, kinds = 0, empty = 0, randomBatches = 0;
+    long sweep1 = 0, sweep2 = 0, minSweep = 0, topSweep = 0, kinds = 0, empty = 0, randomBatches = 0;
     long histDet = 0, histRandom = 0;
     long total() const
     {
-        return sweep1 + sweep2 + minSweep + kinds + empty + randomBatches + histDet + histRandom;
+        return sweep1 + sweep2 + minSweep + topSweep + kinds + empty + randomBatches + histDet + histRandom;
     }
 };
 
@@ -963,6 +980,7 @@ Plan plan(const Ctx& c)
         p.sweep1 = kSweep1;
         p.sweep2 = sweep2Count(th);
         p.minSweep = kMinSweep;
+        p.topSweep = kTopSweep;
         p.kinds = kKindCases;
         p.empty = 4;
         p.randomBatches = th ? 2000000 : 40000;
@@ -1355,6 +1373,16 @@ void runCase(Ctx& c, long idx)
         return;
     }
     i -= p.minSweep;
+    if (i < p.topSweep)
+    {
+        Rng r = c.fixedRng(idx);
+        ids(r, dev, stream);
+        topSweep(i, b, r);
+        runBatchCase(c, b, r, dev, stream);
+        c.count("top_of_range_cases");
+        return;
+    }
+    i -= p.topSweep;
     if (i < p.kinds)
     {
         Rng r = c.fixedRng(idx);
